@@ -10,6 +10,9 @@ Families
              same scripted paths (mc/models/fd_ref.py), two step sizes; coordinates whose two
              differences disagree are counted as non-smooth (kink inside the stencil), must stay
              below 1 % and are still required to lie between the two one-sided slopes.
+             Feature mode "bsf": pfhedge's built-in BlackScholes / WhalleyWilmott AS the model with one input slot
+             (volatility, time to maturity, log-moneyness) supplied by a trainable ModuleOutput, call and put,
+             batches of 1, 2 and all paths (explicit row subsets ``rows`` of the complete path set).
   no_graph   ``price()`` (default arguments) and ``compute_loss(enable_grad=False)`` return tensors
              without ``grad_fn`` / ``requires_grad`` for every criterion / feature set, also when
              called inside an enabled-grad region with trainable parameters; ``compute_loss()``
@@ -240,6 +243,36 @@ class CountWW(torch.nn.Module):
         return out
 
 
+class SlotNet(torch.nn.Module):
+    """A trainable feature standing for ONE input of the built-in Black-Scholes / Whalley-Wilmott models: reads
+    (log_moneyness, time_to_maturity, volatility) and returns the named slot adjusted by a small trainable network of
+    the first two (log-moneyness shifted; time to maturity / volatility scaled by a positive factor)."""
+
+    def __init__(self, net, slot):
+        super().__init__()
+        self.net, self.slot = net, slot
+
+    def forward(self, x):
+        n = self.net(x[..., :2])
+        if self.slot == "logm":
+            return x[..., [0]] + 0.1 * n
+        if self.slot == "ttm":
+            return x[..., [1]] * torch.exp(0.3 * n)
+        return x[..., [2]] * torch.exp(0.3 * n)
+
+
+class BSPrev(torch.nn.Module):
+    """pfhedge's BlackScholes delta plus a smooth parameter-free function of the previous hedge (a recurrent model
+    whose only parameter dependence enters through the Black-Scholes formulas)."""
+
+    def __init__(self, bs):
+        super().__init__()
+        self.bs = bs
+
+    def forward(self, x):
+        return self.bs(x[..., :3]) + 0.125 * torch.tanh(x[..., [3]])
+
+
 class World:
     pass
 
@@ -250,11 +283,13 @@ def build_world(case):
     from pfhedge.nn import Hedger
     w = World()
     f64 = torch.float64
-    spot = path_set(case["paths"], case.get("extra"))
+    rows = case.get("rows")       # explicit subset of the complete path set (n_paths axis: 1, 2, ... paths)
+    sel = (lambda b: b) if rows is None else (lambda b: b[list(rows)])
+    spot = sel(path_set(case["paths"], case.get("extra")))
     N, T = spot.shape
     cost = case["cost"]
     stock = market.primary("brownian", dtype=f64, cost=cost, dt=DT, sigma=0.25)
-    deriv = market.derivative("european", stock, T=T, dt=DT, strike=1.0)
+    deriv = market.derivative("european", stock, T=T, dt=DT, strike=1.0, call=bool(case.get("call", True)))
     crit_name = case["criterion"]
     endowment = {"value": 0.0}
     if crit_name.startswith("isoelastic"):
@@ -265,7 +300,7 @@ def build_world(case):
     # every evaluation, so every evaluation of the loss sees the same batches in the same order
     w.n_times = int(case.get("n_times", 1))
     w.mode = case.get("mode", "train")
-    batches = [spot] + [path_set(case["paths"], case.get("extra"), batch=j) for j in range(1, w.n_times)]
+    batches = [spot] + [sel(path_set(case["paths"], case.get("extra"), batch=j)) for j in range(1, w.n_times)]
     w.sim = market.ScriptedSimulate(stock, [{"spot": b} for b in batches], cycle=True)
     H = case["H"]
     hedge = None
@@ -317,9 +352,32 @@ def build_world(case):
         else:
             inputs = ww.inputs()
         F = 4
+    elif fm == "bsf":
+        # pfhedge's built-in Black-Scholes family as THE model (parameter-free); one of its inputs (slot) comes from a
+        # trainable ModuleOutput, so the only gradient path runs through bs delta / gamma / ww_width (broadcast_all,
+        # d1, ncdf, npdf).  Always evaluated step by step (never at time_to_maturity = 0).
+        from pfhedge.nn import BlackScholes, WhalleyWilmott
+        kind, slot = case["model"].split(":")[1], case["slot"]
+        mo_net = torch.nn.Sequential(torch.nn.Linear(2, 2), torch.nn.Tanh(), torch.nn.Linear(2, 1)).to(f64)
+        lm = _step_feature() if kind == "bs_step" else "log_moneyness"
+        feat = ModuleOutput(SlotNet(mo_net, slot), [lm, "time_to_maturity", "volatility"])
+        inputs = [lm, "time_to_maturity", "volatility"]
+        inputs[("logm", "ttm", "vol").index(slot)] = feat
+        if kind != "bs_step":
+            inputs.append("prev_hedge")
+        bsf = WhalleyWilmott(deriv, a=50.0) if kind == "ww" else BlackScholes(deriv)
+        F = len(inputs)
     else:
         raise KeyError(fm)
-    if case["model"].startswith("ww:"):
+    if fm == "bsf":
+        if H != 1:
+            raise HarnessError("C14: the built-in Black-Scholes models trade one instrument")
+        if kind == "ww":
+            model = CountWW(bsf).to(f64)
+            w.ww_stats = model.stats = {"active": 0, "inactive": 0}
+        else:
+            model = (bsf if kind == "bs_step" else BSPrev(bsf)).to(f64)
+    elif case["model"].startswith("ww:"):
         if fm != "ww" or H != 1:
             raise HarnessError("C14: WhalleyWilmott composites read ww.inputs() and trade one instrument")
         model = (PreWW(ww) if case["model"] == "ww:pre" else CountWW(ww)).to(f64)
@@ -378,7 +436,7 @@ def loss_value(w):
 
 
 def stepwise_expected(fm):
-    return fm in ("step", "prev", "mo_prev", "mo_free_prev", "mo_ww", "ww")
+    return fm in ("step", "prev", "mo_prev", "mo_free_prev", "mo_ww", "ww", "bsf")
 
 
 def admissible(case):
@@ -389,6 +447,10 @@ def admissible(case):
     if (case["fm"] == "ww") != case["model"].startswith("ww:"):
         return False
     if case["fm"] == "ww" and (case["H"] != 1 or not case["cost"] > 0):
+        return False
+    if (case["fm"] == "bsf") != case["model"].startswith("bsf:"):
+        return False
+    if case["fm"] == "bsf" and (case["H"] != 1 or (case["model"] == "bsf:ww" and not case["cost"] > 0)):
         return False
     return True
 
@@ -669,6 +731,11 @@ def grad_fd(ctx, block):
         n = len(coords)
         ctx.tick(n, nontrivial=sum(1 for x in d2 if abs(x) > 1e-9 * max(g_scale, 1e-300)))
         ctx.add("configurations", 1)
+        if case["fm"] == "bsf":
+            nz = sum(1 for (nm, _), x in zip(coords, d2) if nm.startswith("module_output.") and abs(x) > 1e-9 * max(g_scale, 1e-300))
+            key = "bsf_n_paths_%s" % (w.N if w.N <= 2 else "all")
+            ctx.add(key + "_configurations", 1)
+            ctx.add(key + "_feature_coordinates_with_nonzero_derivative", nz)
         ctx.add("smooth_coordinates", n_smooth)
         ctx.add("nonsmooth_coordinates", n_kink)
         ctx.add("nonsmooth_undecided_coordinates", n_undecided)
@@ -692,6 +759,10 @@ def _kind(case):
         k.append("eval_mode")
     if case.get("history"):
         k.append("after_" + case["history"])
+    if case["fm"] == "bsf":
+        k.append(case["model"].split(":")[1] + ":" + case["slot"])
+    if case.get("rows") is not None:
+        k.append("n_paths=%s" % (len(case["rows"]) if len(case["rows"]) <= 2 else "k"))
     return "/".join(k)
 
 
@@ -917,6 +988,31 @@ def _cases(product, wseed, extra=None):
     return out
 
 
+BSF_MODELS = ("bsf:ww", "bsf:bs_step", "bsf:bs_prev")
+BSF_SLOTS = ("vol", "ttm", "logm")
+
+
+def _bsf_cases(ps, wseed, criteria, models, slots, calls, rows_list, costs=(0.01,)):
+    """Built-in Black-Scholes-family model fed by a trainable feature: product criterion x model x slot x call/put x
+    cost x explicit row subset of the complete path set ``ps`` (None = all rows)."""
+    out = []
+    for c in _cases({"criterion": list(criteria), "fm": ["bsf"], "cost": list(costs), "H": [1], "model": list(models),
+                     "paths": [ps]}, wseed):
+        for slot in slots:
+            for call in calls:
+                for rows in rows_list:
+                    d = dict(c, slot=slot, call=call)
+                    if rows is not None:
+                        d["rows"] = list(rows)
+                    out.append(d)
+    return out
+
+
+def _n_rows(ps):
+    A, T, first = PATH_SETS[ps]
+    return len(A) ** (T - (0 if first is None else 1))
+
+
 def _workers():
     return int(os.environ.get("VERIF_WORKERS", 8))
 
@@ -936,13 +1032,16 @@ def run(ctx):
                "only required to lie between the one-sided slopes")
     wseed = ctx.seed
     ctx.alphabet("criterion", list(CRITERIA) + (["isoelastic_log"] if ctx.thorough else []))
-    ctx.alphabet("feature_mode", list(FMODES))
+    ctx.alphabet("feature_mode", list(FMODES) + ["ww", "bsf"])
     ctx.alphabet("cost", [0.0, 0.01])
     ctx.alphabet("H", [1, 2])
     ctx.alphabet("n_times", [1, 2, 3])
     ctx.alphabet("module_mode", ["train", "eval"])
     ctx.alphabet("history_before_gradient", {"none": []} | HISTORIES)
-    ctx.alphabet("model", list(MODELS) + list(BANDS) + ["ww:pre", "ww:mo", "mlp_frozen_first"])
+    ctx.alphabet("model", list(MODELS) + list(BANDS) + ["ww:pre", "ww:mo", "mlp_frozen_first"] + list(BSF_MODELS))
+    ctx.alphabet("bsf_trainable_feature_slot", list(BSF_SLOTS))
+    ctx.alphabet("bsf_call", [True, False])
+    ctx.alphabet("bsf_n_paths", [1, 2, "all"])
     extra = ctx.extra_symbol("spot", [0.7, 1.1, 1.25, 1.4])
     if ctx.quick:
         ctx.alphabet("path_sets", {k: PATH_SETS[k] for k in ("A3T4", "A2T5")})
@@ -981,7 +1080,23 @@ def run(ctx):
         # Q7: one long series (T = 70 > 64 recurrent steps)
         q7 = _cases({"criterion": ["erm", "es"], "fm": ["prev", "mo_prev"], "cost": [0.01], "H": [1], "model": ["mlp"],
                      "paths": ["L70"]}, wseed)
-        q3 = q3 + q4 + q5 + q6 + q7
+        # Q8: the built-in BlackScholes / WhalleyWilmott models fed by a trainable ModuleOutput feature (the only
+        # gradient path runs through the Black-Scholes formulas), batches of 1, 2 and all paths, call and put:
+        # every single path and every pair of consecutive paths of the complete set with one criterion; every
+        # criterion x slot on one single path, one pair and the complete set
+        n8 = _n_rows("A2T5")
+        singles = [[i] for i in range(n8)]
+        few1, few2 = [[0], [11], [21], [n8 - 1]], [[0, 1], [10, 11], [20, 21], [n8 - 2, n8 - 1]]
+        q8 = _bsf_cases("A2T5", wseed, ["erm"], ["bsf:ww"], ["vol"], [True, False], singles)
+        q8 += _bsf_cases("A2T5", wseed, ["erm"], ["bsf:bs_step", "bsf:bs_prev"], ["vol"], [True, False], few1)
+        q8 += _bsf_cases("A2T5", wseed, ["erm"], BSF_MODELS, ["vol"], [True, False], few2)
+        q8 += _bsf_cases("A2T5", wseed, [c for c in CRITERIA if c != "erm"], ["bsf:ww"], ["vol"], [True, False], [[11], None])
+        q8 += _bsf_cases("A2T5", wseed, ["erm", "es"], ["bsf:ww"], ["ttm", "logm"], [True, False], [[11]])
+        q8 += _bsf_cases("A2T5", wseed, ["es"], ["bsf:bs_step", "bsf:bs_prev"], BSF_SLOTS, [True, False], [[11], None])
+        # the trainable layers around WhalleyWilmott of Q5 on a single path as well
+        q8 += [dict(c, rows=[11]) for c in _cases({"criterion": ["erm", "es"], "fm": ["ww"], "cost": [0.01], "H": [1],
+                                                   "model": ["ww:pre", "ww:mo"], "paths": ["A2T5"]}, wseed)]
+        q3 = q3 + q4 + q5 + q6 + q7 + q8
         for chunk in _chunks(q1 + q2 + q3, 16):
             ctx.run("grad_fd", {"cases": chunk})
         ng = _cases({"criterion": list(CRITERIA), "fm": ["vec", "prev", "mo_vec"], "cost": [0.01], "H": [1, 2],
@@ -1026,6 +1141,19 @@ def run(ctx):
                 for c in _cases({"criterion": crits, "fm": list(FMODES), "cost": [0.01], "H": [1, 2], "model": ["mlp"],
                                  "paths": [ps]}, wseed):
                     cs.append(dict(c, n_times=nt, mode=mode))
+            blocks += [{"cases": c} for c in _chunks(cs, 30)]
+        # built-in BlackScholes / WhalleyWilmott models fed by a trainable feature; batches of 1, 2 and all paths
+        n8 = _n_rows("A2T5")
+        singles = [[i] for i in range(n8)]
+        pairs = [[i, i + 1] for i in range(n8 - 1)]
+        cs = _bsf_cases("A2T5", wseed, crits, ["bsf:ww"], ["vol"], [True, False], singles)
+        cs += _bsf_cases("A2T5", wseed, ["erm"], BSF_MODELS, BSF_SLOTS, [True, False], singles)
+        cs += _bsf_cases("A2T5", wseed, ["erm", "es"], BSF_MODELS, ["vol"], [True, False], pairs)
+        cs += [dict(c, rows=r) for c in _cases({"criterion": ["erm", "es"], "fm": ["ww"], "cost": [0.01], "H": [1],
+                                                "model": ["ww:pre", "ww:mo"], "paths": ["A2T5"]}, wseed) for r in singles]
+        blocks += [{"cases": c} for c in _chunks(cs, 120)]
+        for ps in ("A2T5", "A3T4", "A4T3"):
+            cs = _bsf_cases(ps, wseed, crits, BSF_MODELS, BSF_SLOTS, [True, False], [None], costs=(0.0, 0.01))
             blocks += [{"cases": c} for c in _chunks(cs, 30)]
         ctx.run_parallel("grad_fd", blocks, workers=min(_workers(), len(blocks)))
         ng = _cases({"criterion": crits, "fm": list(FMODES), "cost": [0.0, 0.01], "H": [1, 2],
